@@ -79,6 +79,7 @@ type c06Case struct {
 	Kind int          `json:"kind"` // rsEBGP, rsIBGP, rsConfed
 	TAW  bool         `json:"treat_as_withdraw"`
 	AS2  bool         `json:"as2"` // the tested peer has no 4-octet-AS capability: AS_PATH and AGGREGATOR carry 2-octet AS numbers
+	AddPath bool      `json:"add_path"` // ADD-PATH from the tested peer: every NLRI it names carries a path identifier
 	Msgs []c06MsgSpec `json:"msgs"`
 }
 
@@ -102,6 +103,7 @@ const (
 func drawC06(t *rapid.T) c06Case {
 	c := c06Case{Kind: rapid.SampledFrom([]int{rsEBGP, rsIBGP, rsConfed}).Draw(t, "kind"), TAW: rapid.IntRange(0, 3).Draw(t, "taw") != 0}
 	c.AS2 = rapid.IntRange(0, 3).Draw(t, "as2") == 0
+	c.AddPath = rapid.IntRange(0, 3).Draw(t, "add_path") == 0
 	n := rapid.IntRange(2, 9).Draw(t, "nmsg")
 	subset := func(l string, max int) []int {
 		m := rapid.IntRange(0, (1<<c06Pool)-1).Draw(t, l)
@@ -197,9 +199,20 @@ func (a c06TLV) bytes() []byte {
 func c06V4(i int) netip.Prefix { return netip.MustParsePrefix(fmt.Sprintf("10.60.%d.0/24", i)) }
 func c06V6(i int) netip.Prefix { return netip.MustParsePrefix(fmt.Sprintf("2001:db8:60:%d::/64", i)) }
 
+// c06PathID: when non-zero, the tested session carries ADD-PATH path identifiers (peer sends, server receives) and every
+// NLRI the harness writes is preceded by this identifier (set per case; cases run one at a time).
+var c06PathID uint32
+
+func c06ID() []byte {
+	if c06PathID == 0 {
+		return nil
+	}
+	return be32(c06PathID)
+}
+
 func c06Enc(p netip.Prefix) []byte {
 	n := (p.Bits() + 7) / 8
-	return append([]byte{byte(p.Bits())}, p.Addr().AsSlice()[:n]...)
+	return append(append(c06ID(), byte(p.Bits())), p.Addr().AsSlice()[:n]...)
 }
 
 func be32(v uint32) []byte { b := make([]byte, 4); binary.BigEndian.PutUint32(b, v); return b }
@@ -511,8 +524,14 @@ func c06Build(kind int, as2 bool, m c06MsgSpec) *c06Built {
 				what = "trailing octet"
 			case 5:
 				if kind == rsEBGP {
-					a.Val = append(append([]byte{3, 1}, c06ASN(as2, 65010)...), a.Val...)
-					what = "confederation segment from an external peer"
+					seg := append([]byte{byte(3 + f.Target/2%2), 1}, c06ASN(as2, 65010)...) // AS_CONFED_SEQUENCE or AS_CONFED_SET
+					if f.Target%2 == 0 {
+						a.Val = append(seg, a.Val...)
+						what = "leading confederation segment from an external peer"
+					} else {
+						a.Val = append(append([]byte{}, a.Val...), seg...)
+						what = "confederation segment behind other segments, from an external peer"
+					}
 				} else {
 					a.Val = append([]byte{2, 1}, c06ASN(as2, 64650)...)
 					what = "no leading AS_CONFED_SEQUENCE from a confederation member"
@@ -616,9 +635,9 @@ func c06Build(kind int, as2 bool, m c06MsgSpec) *c06Built {
 				continue
 			}
 			if f.Arg%2 == 0 {
-				nlriExtra = []byte{33, 10, 61, 0, 0, 1}
+				nlriExtra = append(c06ID(), 33, 10, 61, 0, 0, 1)
 			} else {
-				nlriExtra = []byte{24, 10, 61}
+				nlriExtra = append(c06ID(), 24, 10, 61)
 			}
 			note(c06Reset, f, fmt.Sprintf("NLRI field ends with % x", nlriExtra), 10, 1)
 		case fUnknownWK:
@@ -651,7 +670,7 @@ func c06Build(kind int, as2 bool, m c06MsgSpec) *c06Built {
 				a.Val = val
 				note(c06Reset, f, fmt.Sprintf("next hop length %d", n), 9, 5, 1)
 			} else {
-				a.Val = append(a.Val, 129, 0x20, 0x01)
+				a.Val = append(append(a.Val, c06ID()...), 129, 0x20, 0x01)
 				note(c06Reset, f, "prefix length 129", 9, 10, 1, 5)
 			}
 			a.bad = true
@@ -994,7 +1013,12 @@ func runC06(t *testing.T) func(c c06Case, st *verifkit.Stats) *verifkit.Failure 
 			}
 			defer n.stop()
 			r := &c06Run{c: &c, n: n, st: st, model: map[rsViewKey][]string{}, view: newRsView()}
-			r.peer = rsPeer{Addr: "10.0.0.1", ID: "10.0.0.1", Kind: c.Kind, AS: c06PeerASFor(c.Kind)}
+			r.peer = rsPeer{Addr: "10.0.0.1", ID: "10.0.0.1", Kind: c.Kind, AS: c06PeerASFor(c.Kind), AddPathRecv: c.AddPath}
+			c06PathID = 0
+			if c.AddPath {
+				c06PathID = 7
+			}
+			defer func() { c06PathID = 0 }()
 			r.obs = rsPeer{Addr: "10.0.0.9", ID: "10.0.0.9", Kind: rsEBGP, AS: 65200}
 			if err := r.addPeer(&r.peer, c.TAW); err != nil {
 				return verifkit.Failf("addpeer", "%v", err)
